@@ -81,6 +81,13 @@ Section Timed.
     | [] => ts
     | l :: sched' => match tstep ts l with Some ts' => trun ts' sched' | None => trun ts sched' end
     end.
+
+  (** strict: every label must be taken by the timely system *)
+  Fixpoint treplay (ts : tstate) (sched : list label) : option tstate :=
+    match sched with
+    | [] => Some ts
+    | l :: sched' => match tstep ts l with Some ts' => treplay ts' sched' | None => None end
+    end.
 End Timed.
 
 Definition tinit (t0 : Z) (roles : tid -> role) : tstate := TS (init t0 roles) t0 t0.
